@@ -388,6 +388,10 @@ def classify(p, ref, boa, probe=None):
         if lex & _assigned_ids({k: p[k] for k in ("p_funcs", "p_body")}):
             return "tdz-assign-before-init"
         return "tdz-missing"
+    # an assignment inside `with` to a name that is also a const of an enclosing scope is rejected at compile time
+    if has(p, "SWith") and (bt + bc).count("TypeError") > (rt + rc).count("TypeError") and \
+            any(d[1] == "KConst" for d in nodes(p, "SDecl")):
+        return "with-assignment-to-outer-const-name"
     # a labelled break / continue leaving an inner for-of / for-in also leaves an enclosing iterator loop: boa prints less
     if any(b[1] is not None for b in nodes(p, "SBreak") + nodes(p, "SContinue")) and len(nodes(p, "SForOf") + nodes(p, "SForIn")) >= 2 \
             and len(ba) < len(ra) and subseq(ba, ra) and rc == bc:
